@@ -504,32 +504,33 @@ impl Oracle {
 
     /// C01 + C02(order, alignment) on every variant of a snapshot
     fn layout(&mut self, s: &Snap, at: usize) {
+        let at = if at >= 1_000_000 { format!("replay of the final definition into native builder #{}", at - 1_000_000) } else { format!("step {}", at) };
         for (vi, v) in s.variants.iter().enumerate() {
             let ds: Vec<&DefObs> = v.iter().filter_map(|&i| s.defs.get(i as usize)).collect();
             if ds.len() != v.len() {
-                self.fail("C12", format!("step {}: variant {} lists an unknown datum id {:?}", at, vi, v));
+                self.fail("C12", format!("{}: variant {} lists an unknown datum id {:?}", at, vi, v));
                 continue;
             }
             for a in 0..ds.len() {
                 let x = ds[a];
                 if x.off == u64::MAX {
-                    self.fail("C02", format!("step {}: variant {} datum {} was never placed", at, vi, v[a]));
+                    self.fail("C02", format!("{}: variant {} datum {} was never placed", at, vi, v[a]));
                     continue;
                 }
                 if x.align > 0 && x.off % x.align != 0 {
-                    self.fail("C02", format!("step {}: variant {} datum {} offset {} not a multiple of align {}", at, vi, v[a], x.off, x.align));
+                    self.fail("C02", format!("{}: variant {} datum {} offset {} not a multiple of align {}", at, vi, v[a], x.off, x.align));
                 }
                 for b in (a + 1)..ds.len() {
                     let y = ds[b];
                     if x.size > 0 && y.size > 0 && x.off < y.off.saturating_add(y.size) && y.off < x.off.saturating_add(x.size) {
-                        self.fail("C01", format!("step {}: variant {}: data {} [{}..{}) and {} [{}..{}) overlap", at, vi, v[a], x.off, x.off + x.size, v[b], y.off, y.off + y.size));
+                        self.fail("C01", format!("{}: variant {}: data {} [{}..{}) and {} [{}..{}) overlap", at, vi, v[a], x.off, x.off + x.size, v[b], y.off, y.off + y.size));
                     }
                 }
             }
             let nz: Vec<(u64, u64)> = v.iter().zip(ds.iter()).filter(|(_, d)| d.size > 0).map(|(i, d)| (*i, d.off)).collect();
             for w in nz.windows(2) {
                 if w[0].1 >= w[1].1 {
-                    self.fail("C02", format!("step {}: variant {} lists datum {}@{} before datum {}@{}", at, vi, w[0].0, w[0].1, w[1].0, w[1].1));
+                    self.fail("C02", format!("{}: variant {} lists datum {}@{} before datum {}@{}", at, vi, w[0].0, w[0].1, w[1].0, w[1].1));
                 }
             }
         }
@@ -802,7 +803,7 @@ fn run_history(h: &[Req]) -> RunOut {
                     }
                     if let Some(t) = &c.target {
                         if ci < 4 {
-                            oracle.layout(t, usize::MAX);
+                            oracle.layout(t, 1_000_000 + ci);
                         }
                     }
                 }
@@ -1126,7 +1127,25 @@ fn main() {
         let text = hist_text(h);
         writeln!(hist_txt, "{}", text).unwrap();
         writeln!(obs_out, "{}", r.obs.iter().map(|o| o.iter().map(|x| x.to_string()).collect::<Vec<_>>().join(",")).collect::<Vec<_>>().join(" | ")).unwrap();
-        for (p, what) in &r.oracle.fails {
+        // C18: the same history through other entry points (typed / dynamic / override / copy) must give
+        // the same observations: the layout depends on the resolver's answers only
+        let mut c18 = Vec::new();
+        if h.iter().any(|r| matches!(r, Req::Add { .. })) {
+            let rot = 1 + (k % 3) as u8;
+            let h2: Vec<Req> = h
+                .iter()
+                .map(|r| match r {
+                    Req::Add { name, size, align, uninit, entry } => Req::Add { name: *name, size: *size, align: *align, uninit: *uninit, entry: (*entry + rot) % 4 },
+                    x => x.clone(),
+                })
+                .collect();
+            let r2 = run_history(&h2);
+            if r2.obs != r.obs {
+                let pos = r.obs.iter().zip(r2.obs.iter()).position(|(a, b)| a != b).unwrap_or(r.obs.len().min(r2.obs.len()));
+                c18.push(("C18".to_owned(), format!("observation #{} differs when the data are added through other entry points (entry + {}): {:?} vs {:?}", pos, rot, r.obs.get(pos), r2.obs.get(pos))));
+            }
+        }
+        for (p, what) in r.oracle.fails.iter().chain(c18.iter()) {
             writeln!(oracle_out, "{{\"case\":{},\"property\":{},\"what\":{},\"history\":{}}}", k, json_str(p), json_str(what), json_str(&text)).unwrap();
         }
         // the model runs the executed prefix only (a panic stops the history)
